@@ -257,6 +257,20 @@ def as_ref_shapes():
         let want = &s.c as *const Side as usize;
         { let m: &mut Side = s.as_mut(); assert!(m as *mut Side as usize == want); }
 """, "skip/ignore: impls are generated for, and address, exactly the remaining field")
+    mk("skip_tuple_before_kept_same_type", D + "pub struct S(#[as_ref(skip)] #[as_mut(skip)] pub Inner, pub Inner);\n" + D +
+       "pub struct T3(pub Side, #[as_ref(ignore)] #[as_mut(ignore)] pub Inner, pub Inner);",
+       """        let mut s = S(any_inner(), any_inner());
+        assert!(ptr::eq(AsRef::<Inner>::as_ref(&s), &s.1), "a skipped field before the kept one: AsRef must be the kept field (position 1), not the skipped one");
+        let want = &s.1 as *const Inner as usize;
+        let nv: u32 = kani::any();
+        { let m: &mut Inner = s.as_mut(); assert!(m as *mut Inner as usize == want, "AsMut must be the kept field"); m.tag = nv; }
+        assert!(s.1.tag == nv, "write through as_mut() is not visible in the kept field");
+        let mut t = T3(any_side(), any_inner(), any_inner());
+        assert!(ptr::eq(AsRef::<Inner>::as_ref(&t), &t.2), "ignored field in the middle: AsRef<Inner> must be field 2");
+        assert!(ptr::eq(AsRef::<Side>::as_ref(&t), &t.0));
+        let want = &t.2 as *const Inner as usize;
+        { let m: &mut Inner = t.as_mut(); assert!(m as *mut Inner as usize == want); }
+""", "tuple structs selecting by exclusion with a skipped field BEFORE a kept field of the same type: the kept field's own storage")
     mk("generic", D + "pub struct G<T>(pub T);\n" + D + "#[as_ref(Inner)]\n#[as_mut(Inner)]\npub struct Fwd<T>(pub T);\n" + D + "#[as_ref(T)]\n#[as_mut(T)]\npub struct Same<T>(pub T);",
        """        let mut g = G(any_inner());
         assert!(ptr::eq(AsRef::<Inner>::as_ref(&g), &g.0), "generic field, no attribute: the field itself");
